@@ -515,6 +515,10 @@ func buildCorpus(c *vc.Ctx) (*corpusT, error) {
 		default:
 			pipe = append(pipe, "passiveauth.PassiveAuth/file:"+fileOfKind[s.Kind]+"[rich]")
 		}
+		if s.Kind == reflds.KDG16 {
+			// the offline verifiers have no recover of their own: whatever escapes a constructor escapes them
+			pipe = append(pipe, "verifier.Verify/file:dg16[rich]", "mobile.Verifier.Verify/file:dg16[rich]")
+		}
 		co.add("reflds/"+s.Name, s.Bytes, eps, pipe)
 		if s.Kind == reflds.KSOD {
 			if ts, ok := parseBER(s.Bytes); ok && len(ts) == 1 {
